@@ -151,3 +151,34 @@ def run_split(task):
                                    "solutions": sum(expected.values())})
     res["wall"] = time.time() - t0
     return res
+
+
+def replay_split(task):
+    from framework import nucsmap as M
+
+    w = task["witness"]
+    sp, cfg = w["split"], w.get("cfg") or {"calg": "bc", "vh": "first", "dh": "min"}
+    model, k, var = sp["model"], sp["k"], sp["var"]
+    fails = []
+    p = M.build_problem(model)
+    fl, parts = check_split(p, k, var, model)
+    fails += [{"kind": a, "detail": b} for a, b in fl]
+    if parts and O.model_points(model) <= 20000:
+        expected = collections.Counter(O.brute(model))
+        union = collections.Counter()
+        for q in parts:
+            sub = dict(model)
+            sub["doms"] = [list(x) for x in q.shr_domains_lst]
+            out = modelrun.run_enum(sub, cfg, {"budget": {}} if MODE == "interp" else None)
+            if out.error:
+                fails.append({"kind": "sub_problem_" + out.error, "detail": str(out.error_detail)})
+                break
+            c = collections.Counter(out.solutions)
+            if any(union[x] for x in c):
+                fails.append({"kind": "two_parts_share_a_solution", "detail": ""})
+            union += c
+        else:
+            if union != expected:
+                fails.append({"kind": "union_differs_from_original_solution_set", "detail": "%d vs %d" % (
+                    sum(union.values()), sum(expected.values()))})
+    return {"fails": fails}
